@@ -21,6 +21,8 @@ def cases(tier, seed):
             if M:
                 s['M'] = M
             cs.append({'scen': 'save_load_cores', 's': dict(s)})
+            if dt in ('float64', 'complex128'):
+                cs.append({'scen': 'save_load_cores', 's': dict(s, overwrite=True)})
             if dt == 'float64':
                 cs.append({'scen': 'save_load_cores', 's': dict(s, sliced=True)})
                 if M:
@@ -63,18 +65,18 @@ def cases(tier, seed):
     # objects produced by TT-SVD / rounding (rank list may hold numpy integers)
     for shp in ([2, 2], [2, 3], [2, 2, 2], [3, 2, 2]) + (([2, 2, 2, 2],) if th else ()):
         for pat in gen_patterns(shp, 3, rng, 3 if not th else 6):
-            cs.append({'scen': 'save_load_ttsvd', 's': {'shape': shp, 'pattern': [list(p) for p in pat]}, 'opts': A})
+            cs.append({'scen': 'save_load_ttsvd', 's': {'shape': shp, 'pattern': [list(p) for p in pat]}, 'opts': A, 'no_tv': True})
     for M, N in [([2], [2]), ([2, 2], [2, 1])]:
         d = len(N)
         shp = list(M) + list(N)
         modes = [m * n for m, n in zip(M, N)]
         pats = gen_patterns(shp, 3, rng, 2, modes=modes, reindex=lambda p, M=M, N=N, d=d: [tuple(ix[i] * N[i] + ix[d + i] for i in range(d)) for ix in p])
         for pat in pats:
-            cs.append({'scen': 'save_load_ttsvd', 's': {'shape': shp, 'M': M, 'N': N, 'ttm': True, 'pattern': [list(p) for p in pat]}, 'opts': A})
+            cs.append({'scen': 'save_load_ttsvd', 's': {'shape': shp, 'M': M, 'N': N, 'ttm': True, 'pattern': [list(p) for p in pat]}, 'opts': A, 'no_tv': True})
     for N, R in [([2, 2], [1, 2, 1]), ([2, 2, 2], [1, 2, 2, 1])]:
         for rep in range(2):
             p = gen_tt_pattern(N, R, rng, dense_slices=True)
-            cs.append({'scen': 'save_load_rounded', 's': {'N': N, 'R': R, 'patterns': [[list(q) for q in pk] for pk in p]}, 'opts': A})
+            cs.append({'scen': 'save_load_rounded', 's': {'N': N, 'R': R, 'patterns': [[list(q) for q in pk] for pk in p]}, 'opts': A, 'no_tv': True})
     return cs
 
 
@@ -88,7 +90,7 @@ def sig(case, label):
     lab = label.rstrip('0123456789')
     if sc == 'copies':
         return 'copies:%s:%s%s:%s' % (s['op'], 'ttm' if 'M' in s else 'tt', ':then_set_core' if s.get('then_set_core') else '', lab)
-    return '%s:%s:%s' % (sc, 'ttm' if ('M' in s or s.get('ttm')) else 'tt', lab)
+    return '%s:%s%s:%s' % (sc, 'ttm' if ('M' in s or s.get('ttm')) else 'tt', ':overwrite' if s.get('overwrite') else '', lab)
 
 
 def meta(tier):
